@@ -64,12 +64,22 @@ Qed.
 Lemma agree_self m : agree (m_trie m) m.
 Proof. intros k. reflexivity. Qed.
 
+Lemma memN_filter_ne x k g : memN x (filter (fun y => negb (N.eqb y k)) g) = if N.eqb x k then false else memN x g.
+Proof.
+  unfold memN. induction g as [|y g IH]; cbn [filter existsb]; [now destruct (N.eqb x k)|].
+  destruct (N.eqb y k) eqn:Ey; cbn [negb existsb]; rewrite IH; destruct (N.eqb x k) eqn:Ex; try reflexivity.
+  - apply N.eqb_eq in Ey. subst y. now rewrite Ex.
+  - apply N.eqb_eq in Ex. subst x. rewrite N.eqb_sym, Ey. reflexivity.
+Qed.
+
 Lemma agree_upd d m k v : agree d m -> agree d (do_upd k v m).
 Proof.
   intros H x. specialize (H x). unfold contents, do_upd, view in *.
-  cbn [m_trie m_btree m_grave] in *.
-  destruct (memN x (m_grave m)); [reflexivity|].
-  rewrite get_cons, get_del. destruct (N.eqb x k); [reflexivity | exact H].
+  cbn [m_trie m_btree m_grave] in *. rewrite memN_filter_ne.
+  destruct (N.eqb x k) eqn:E.
+  - rewrite !get_cons, E. reflexivity.
+  - destruct (memN x (m_grave m)); [reflexivity|].
+    rewrite !get_cons, !get_del, E. exact H.
 Qed.
 
 Lemma agree_change d m c : agree d m -> agree d (do_change c m).
@@ -727,12 +737,12 @@ Proof.
   now rewrite step_change_running.
 Qed.
 
-(* what an accepted update shows (the graveyard caveat is C09's subject) *)
+(* what an accepted update shows: the new value, whatever was removed before (the tombstone is lifted) *)
 Lemma upd_contents k v m :
-  contents (do_change (Upd k v) m) k = if memN k (m_grave m) then None else Some v.
+  contents (do_change (Upd k v) m) k = Some v.
 Proof.
   unfold contents, do_change, do_upd, view. cbn [m_trie m_btree m_grave].
-  destruct (memN k (m_grave m)); [reflexivity|]. now rewrite get_cons, N.eqb_refl.
+  rewrite memN_filter_ne, N.eqb_refl. now rewrite get_cons, N.eqb_refl.
 Qed.
 
 (* ------------------------------------------------------------------ *)
